@@ -155,7 +155,11 @@ def run_case(case, ctx):
     P = ctx.P
     if case[0] == 'direct':
         text, truth = case[1], list(case[2])
-        got = list(P.list_names(text))
+        try:
+            got = list(P.list_names(text))
+        except Exception as e:
+            ctx.violation('list_names raised %s on lexically valid text' % type(e).__name__, case, detail={'text': text, 'error': str(e)[:200]})
+            return
         ctx.count('texts_compared')
         ctx.nontriv(text)
         if got != truth:
